@@ -26,7 +26,7 @@ STRESS_OPS = ["class", "None", "none", "import", "_1", "_private", "client", "en
               "custom_fields", "baseOperation", "Upload", "operations"]
 HARMLESS_VARS = ["first", "after", "userId", "variables", "data", "response", "query", "type", "id_", "URLPath"]
 STRESS_VARS = ["self", "kwargs", "_query", "class", "from", "None", "_x", "x", "fooBar", "foo_bar", "gql", "__x", "_1", "Any", "Optional"]
-HARMLESS_FRAGS = ["userBits", "NodeParts", "f1", "type", "match"]
+HARMLESS_FRAGS = ["userBits", "NodeParts", "f1", "typeBits", "case"]
 STRESS_FRAGS = ["class", "none", "_1", "Optional", "BaseModel", "List", "Field", "_"]
 HARMLESS_ENUM_VALUES = ["name", "value", "lower_case", "X1", "type", "match", "__dunder__", "ok"]
 STRESS_ENUM_VALUES = ["class", "None", "True", "mro", "_sunder_", "_order_", "from", "class_", "_"]
